@@ -231,8 +231,28 @@ def r3(ctx, cfg):
         # the loop: apply is reached from Iterator::next's Some edge and loops back
         nx = [(b, t) for b, t in f.calls() if t["callee"]["name"] == "next" and t["callee"].get("trait") == "std::iter::Iterator"]
         cf = cfg_of(f)
-        ok = len(nx) == 1 and ap and cf.can_reach(ap[0][0], nx[0][0]) and cf.can_reach(nx[0][0], ap[0][0])
+        if len(ap) == 1:
+            nx = [(b, t) for b, t in nx if cf.can_reach(ap[0][0], b) and cf.can_reach(b, ap[0][0])]     # (the loop apply sits in)
+        ok = len(nx) == 1 and len(ap) == 1
         ctx.ob(R, key, "apply-inside-iteration", ok, "Op::apply is not inside the loop over ops_log", fn=f, sample="next -> apply -> next")
+        if ok:
+            # no logged operation is skipped and the replay stops only when the log is exhausted: once `next` has yielded an
+            # element, neither the next request nor the end of commit is reached without applying it, and the end of commit
+            # is not reached at all without asking for a further element (no `continue` around apply, no `break` / `return`)
+            nb, ab = nx[0][0], ap[0][0]
+            sw = cf.after_call_node(nb)
+            some = [e for e, v, n, b in cf.switch_edges(sw) if n == "Some"] if sw is not None else []
+            rets = set(cf.return_blocks())
+            d = "the loop over ops_log is not a switch on next()'s result"
+            ok = len(some) == 1
+            if ok:
+                skip = cf.reachable_from(some[0], avoid=[ab])
+                stop = cf.reachable_from(some[0], avoid=[nb])
+                ok = nb not in skip and not (rets & skip) and not (rets & stop)
+                d = "after an operation is taken from the log, commit can %s" % (
+                    "take the next one without applying it" if nb in skip else "end without applying it" if rets & skip else
+                    "end although the log is not exhausted" if rets & stop else "-")
+            ctx.ob(R, key, "no-logged-op-skipped-replay-ends-only-with-the-log", ok, d, fn=f, sample="Some -> apply -> next; return only after None")
     key = T + "Op::apply"
     f = ctx.need_fn(R, key)
     if f is not None:
